@@ -148,6 +148,11 @@ def values_at_special_points(chk, F):
                 chk.undecide("value|bessel|j%d" % n, "missing anchor")
                 continue
             c14.small_series(chk, F, body, n)
+        # ... and the derivative parts at 0 are those of that polynomial only if the interface items on the way (the reflection `abs`,
+        # `signum`, the elementary functions) carry the derivative parts on the paths taken at a zero real part as well
+        c14.interface_deps(chk, F)
+        # ... decided on the bodies in dual mode at 0 (both signs of zero) and next to it
+        c14.dual_lifting(chk, F, {it["name"]: F.bodies.get(it["did"]) for it in tr["items"]}, samples=c14.LIFT_SAMPLES[:3])
     from . import c01
     for ty in TYPES:
         imp = algebra.dualnum_impl(F, ty)
